@@ -229,7 +229,7 @@ class BaseVersion(object):
         if self.__epoch is not None:
             version += self.__epoch + ":"
         version += self.__upstream_version
-        if self.__debian_revision:
+        if self.__debian_revision is not None:
             version += "-" + self.__debian_revision
         self.full_version = version
 
